@@ -39,7 +39,9 @@ class Translate(Domain):
             -1, self.space.dim
         )
         shifted_points = points[:, list(self.space.keys())].as_tensor - translate_values
-        # points[:, list(self.space.keys())] = Points(shifted_points, self.space)
+        # the translated domain may depend on further coordinates of the points (e.g.
+        # those of a product partner): they are handed on as parameters
+        params = self._coordinates_outside_space(points).join(params)
         return self.domain._contains(Points(shifted_points, self.space), params)
 
     def sample_random_uniform(
